@@ -102,6 +102,33 @@ CHECKS = {
          'must be exactly the deleted tokens. Sampling, not proof.',
     note='Trusted: functional edit models in tsim/props/c11.py (insert convention as fixed by the '
          'test-suite). With the slash parameter only the generic clauses are judged.'),
+ 'C16': dict(
+    ref='DESIGN.md §5 C16',
+    technique='deterministic simulation: analysis tasks as stream accumulators through the real CLI '
+              '(short reads) and through the API with interleaved task instances; conservation '
+              'and additivity against the model, cross-component consistency invariant on every '
+              'tree of a run',
+    text='Seeded exploration: for treebanks A, B the three analysis tasks run through the real '
+         '`treeanalysis` command on A, B and A+B and through the API with two task instances '
+         'interleaved; reported totals and histograms must equal the model\'s, report(A+B) = '
+         'report(A)+report(B); for every tree gap_degree>0 iff the bracket writer refuses it iff '
+         'its grammar is not context-free; per-node gap degree and blocks equal the runs of the '
+         'token set; disco_order of the binarized tree is a permutation, identity when continuous.',
+    note='Trusted: model gap-degree/runs (tsim/model.py), regular expressions that parse the '
+         'task reports.'),
+ 'C17': dict(
+    ref='DESIGN.md §5 C17',
+    technique='deterministic simulation: --split runs over the simulated file system, history '
+              'check over write log and final files (exactly-once, order, file set), sibling '
+              'unsplit run, reference integer arithmetic',
+    text='Seeded exploration: `transform --split SPEC` with specs of 1-4 parts (25% malformed or '
+         'over-demanding), sizes 0..12 (thorough ..30), all output formats, optional '
+         'filter_by_length; the part files must be exactly DEST.0..k-1, their sizes equal the '
+         'reference integer arithmetic, the concatenation of the decoded parts equal the decoded '
+         'unsplit output of a sibling process tree for tree, each part be a complete document '
+         'accepted by the own reader, bad specs be rejected; the arithmetic is also called '
+         'directly with sizes up to 10000. Sampling, not exhaustive enumeration.',
+    note='Trusted: reference arithmetic ref_sizes (integer floor), reference decoders.'),
 }
 
 NOT_BUILT_YET = {}
